@@ -1,4 +1,5 @@
-from sock_common import sq, SOCK_ASSUMPTIONS
+import sock_common
+from sock_common import sq, SOCK_ASSUMPTIONS, open_ids
 
 FUNCS = ["p_socket_new", "p_socket_new_from_fd", "p_socket_bind", "p_socket_listen", "p_socket_connect", "p_socket_check_connect_result",
          "p_socket_accept", "p_socket_send", "p_socket_send_to", "p_socket_receive", "p_socket_receive_from", "p_socket_shutdown",
@@ -18,7 +19,7 @@ META = {
         "family, type and protocol are fixed per query (a symbolic socket() argument would make descriptor numbers symbolic)",
     ],
     "outside": ["real-time upper bounds of waits", "address getters on a closed socket", "sequences longer than the stated length",
-                "select() and Windows back ends", "close() failing with EINTR/EIO while releasing the descriptor"],
+                "select() and Windows back ends", "close() failing with EIO"],
 }
 MANIFEST = {
     "level_text": 'Bounded model checking of the real psocket.c/psysclose-unix.c: (1) closed state - from four pre-states, both families and types, every choice of 2 (quick) / 3 (thorough) I/O calls after p_socket_close is decided to fail with NOT_AVAILABLE while the kernel model sees no system call at all, second close and free make no further close(fd); (2) timeouts - one call that cannot proceed, any timeout argument, polls interrupted at symbolic points with the model clock advancing by arbitrary parts of the timeout, a peer that may act during the wait: TIMED_OUT only after >= T on the clock, T=0 polls indefinitely and never times out, non-blocking returns at once with WOULD_BLOCK/IN_PROGRESS and no poll; (3) close-on-exec on every created/accepted descriptor, also for a kernel ignoring SOCK_CLOEXEC; (4) every sequence of 4 (quick) / 6 (thorough) calls from a 13-call alphabet is compared after each call with a reference state machine written from psocket.h (all getters, error codes, kernel-level effects, descriptor closed exactly once). Right level: the state after an arbitrary call sequence is a product of many small flags that tests sample sparsely, and it is small enough for the solver to enumerate completely within the bound.',
@@ -31,6 +32,7 @@ V4, V6 = "AF_INET", "AF_INET6"
 
 
 def queries(tier):
+    sock_common.TIER = tier
     quick = tier == "quick"
     F = 2 if quick else 4
     qs = []
@@ -51,6 +53,15 @@ def queries(tier):
                  faults=1, funcs=FUNCS, bounds={"faults_per_call": 1, "first_descriptor": 0, "slot_rotation": 4}))
     qs.append(sq("seq_dgram_v4_L3_F0_fd0", "harness/C10_seq.c", defs=["FAMILY=" + V4, "STREAM=0", "L=3", "VS_FD0=0"], faults=0, funcs=FUNCS,
                  bounds={"calls": 3, "alphabet": 13, "first_descriptor": 0}))
+    # close() interrupted (Linux: descriptor released, -1/EINTR): closed exactly once, no close() on a number that is not open
+    kfid = "C10_close_eintr_reclose"
+    kfdef = ["KF_OPEN_" + kfid] if kfid in open_ids() else []
+    for st, fam, nm in ((1, V4, "stream_v4"), (0, V6, "dgram_v6")):
+        qs.append(sq("close_eintr_%s" % nm, "harness/C10_close_eintr.c", defs=["FAMILY=" + fam, "STREAM=%d" % st] + kfdef, faults=0, funcs=FUNCS,
+                     bounds={"interrupted_close_per_library_call": 1, "p_socket_close_calls": "0..2"}))
+    qs.append(sq("close_eintr_kf_demo", "harness/C10_close_eintr.c", defs=["FAMILY=" + V4, "STREAM=1", "KF_DEMO"], faults=0, funcs=FUNCS, kf=kfid,
+                 kf_match=r"descriptor closed twice|descriptor closed exactly once|released by exactly one close",
+                 bounds={"interrupted_close_per_library_call": 1, "p_socket_close_calls": "0..2"}))
     # timeouts / non-blocking: one call that cannot proceed
     for op, nm in ((1, "receive"), (2, "send"), (3, "accept"), (4, "connect"), (5, "io_condition_wait"), (6, "receive_from_dgram")):
         qs.append(sq("timeout_%s_F%d" % (nm, F), "harness/C10_timeout.c", defs=["OP=%d" % op], faults=F, funcs=FUNCS,
@@ -77,6 +88,6 @@ def queries(tier):
         seqs = [(V4, 1, 6, 0), (V6, 1, 5, 0), (V4, 0, 6, 0), (V6, 0, 5, 0), (V4, 1, 4, 1), (V6, 0, 4, 1)]
     for fam, st, L, f in seqs:
         qs.append(sq("seq_%s_%s_L%d_F%d" % ("stream" if st else "dgram", "v4" if fam == V4 else "v6", L, f), "harness/C10_seq.c",
-                     defs=["FAMILY=" + fam, "STREAM=%d" % st, "L=%d" % L], faults=f, funcs=FUNCS, timeout=3000, mem_gb=16,
+                     defs=["FAMILY=" + fam, "STREAM=%d" % st, "L=%d" % L], faults=f, funcs=FUNCS, mem_gb=16,
                      bounds={"calls": L, "alphabet": 13, "faults_per_call": f}))
     return qs
